@@ -42,6 +42,29 @@ def _names(node):
     return {n.id for n in ast.walk(node) if isinstance(n, ast.Name)}
 
 
+NARROWING = {"difference_update", "intersection_update", "discard", "remove", "clear", "pop", "symmetric_difference_update"}
+
+
+def check_presence_sets(ctx, fn, where):
+    """R1c (K5): every set S whose members are looked up for presence
+    (`<index>.get_parent_map(S)` followed by `S.difference(present)`) and that
+    is *collected* in this function (initialised empty / from all_keys()) must
+    reach the lookup un-narrowed: bound once, never filtered or shrunk."""
+    lookups = []
+    for s in walk_own(fn):
+        if isinstance(s, ast.Assign) and isinstance(s.value, ast.Call) and call_attr(s.value) == "get_parent_map" and len(s.value.args) == 1 and isinstance(s.value.args[0], ast.Name):
+            lookups.append(s.value.args[0].id)
+    checked = 0
+    for name in sorted(set(lookups)):
+        binds = [s for s in walk_own(fn) if isinstance(s, (ast.Assign, ast.AugAssign)) and any(isinstance(t, ast.Name) and t.id == name for t in (s.targets if isinstance(s, ast.Assign) else [s.target]))]
+        if len(binds) >= 1 and isinstance(binds[0], ast.Assign) and norm(binds[0].value) in ("set()",) or (binds and isinstance(binds[0], ast.Assign) and "all_keys()" in norm(binds[0].value)):
+            checked += 1
+            narrowed = [norm(c)[:60] for c in calls_in(fn) if call_recv(c) == name and call_attr(c) in NARROWING]
+            rebound = [norm(b)[:70] for b in binds[1:]]
+            ctx.check("R1-presence-set-not-narrowed", where, not narrowed and not rebound, f"`{name}` (collected from the new inventories) reaches its presence lookup without being filtered", construct="; ".join(narrowed + rebound), message=f"the key set `{name}` is narrowed before it is checked for presence ({'; '.join(narrowed + rebound)}): referenced keys outside the narrowed set are no longer required to exist")
+    ctx.require(checked >= 2, f"{where}: expected at least 2 collected presence sets (text keys, chk roots), found {checked}")
+
+
 def run(ctx):
     repo = ctx.repo
     # ---- R1 ------------------------------------------------------------------
@@ -69,9 +92,31 @@ def run(ctx):
         trivial = all(norm(b.value) == "[]" for b in body_returns) if body_returns else True
         ctx.check("R1-gc-override", f"{GC}:GCRepositoryPackCollection._check_new_inventories", not trivial, "the override can report problems (returns something other than a literal [])", message="the 2a _check_new_inventories override always returns []")
 
+    if r is not None and r[0] == GC:
+        check_presence_sets(ctx, r[2], f"{GC}:GCRepositoryPackCollection._check_new_inventories")
+
     # ---- R2 ------------------------------------------------------------------
-    fn, g, where = fn_cfg(ctx, PR, f"{COLL}._abort_write_group")
-    new_abort = need(where, calling(g, attr="abort", recv="self._new_pack"), "self._new_pack.abort()")
+    fn, g, where = fn_cfg(ctx, PR, f"{COLL}._abort_write_group", fallible=lambda s: any(call_attr(c) == "abort" for c in calls_in(s)))
+    # R2-indices-removed: the aborted pack's in-memory indices are dropped even when pack.abort() raises
+    # (ExitStack callback registered before the abort, or a finally around it)
+    for ab in calling(g, attr="abort"):
+        x = [call_recv(c) for c in g.nodes[ab].calls() if call_attr(c) == "abort"][0]
+        cbs = calling(g, attr="callback", argpred=lambda c, x=x: len(c.args) >= 2 and norm(c.args[0]) == "self._remove_pack_indices" and norm(c.args[1]) == x)
+        direct = calling(g, attr="_remove_pack_indices", argpred=lambda c, x=x: c.args and norm(c.args[0]) == x)
+        ok_cb = bool(cbs) and g.always_before(cbs, [ab])[0] and any(n.kind == "with_enter" and "ExitStack" in norm(n.ast.context_expr) for n in g.nodes)
+        ok_fin = bool(direct) and g.always_after([ab], direct)[0]
+        ctx.check("R2-indices-removed", where, ok_cb or ok_fin, f"indices of {x} are removed from the aggregate indices on every exit of {x}.abort(), including when it raises", construct=f"{x}.abort()", message=f"if {x}.abort() raises, _remove_pack_indices({x}) is skipped: the aborted pack's index entries stay visible in this repository object")
+    aliases = {"self._new_pack"}
+    for s in walk_own(fn):
+        if isinstance(s, ast.Assign):
+            tg, vl = s.targets[0], s.value
+            if isinstance(tg, ast.Tuple) and isinstance(vl, ast.Tuple):
+                for t, v in zip(tg.elts, vl.elts):
+                    if norm(v) == "self._new_pack":
+                        aliases.add(norm(t))
+            elif norm(vl) == "self._new_pack":
+                aliases.add(norm(tg))
+    new_abort = need(where, calling(g, attr="abort", recv=aliases), "abort() of the new pack")
     k2_unreachable(ctx, "R2-abort-new-pack", where, g, {"self._new_pack is not None": False}, new_abort, "new pack abort is guarded by `_new_pack is not None`")
     g_live = g.assume({"self._new_pack is not None": True}).without_exc_edges()
     ok, w = g_live.always_after([g.entry], new_abort, exits=[g.exit])
@@ -83,7 +128,15 @@ def run(ctx):
         cb = [i for i in resets if g.nodes[i].calls()]
         if cb:
             k1_before(ctx, "R2-reset-new-pack", where, g, cb, new_abort, "the reset callback is registered before abort() so it also runs when abort() raises")
-    loops = [n for n in walk_own(fn) if isinstance(n, ast.For) and norm(n.iter) == "self._resumed_packs"]
+    res_alias = {"self._resumed_packs"}
+    for s in walk_own(fn):
+        if isinstance(s, ast.Assign):
+            tg, vl = s.targets[0], s.value
+            pairs = zip(tg.elts, vl.elts) if isinstance(tg, ast.Tuple) and isinstance(vl, ast.Tuple) and len(tg.elts) == len(vl.elts) else [(tg, vl)]
+            for t, v in pairs:
+                if "self._resumed_packs" in norm(v) and isinstance(t, ast.Name):
+                    res_alias.add(t.id)
+    loops = [n for n in walk_own(fn) if isinstance(n, ast.For) and norm(n.iter) in res_alias]
     ok = bool(loops) and all(any(call_attr(c) == "abort" and call_recv(c) == norm(l.target) for c in calls_in(l)) for l in loops)
     ctx.check("R2-abort-resumed", where, ok, "every resumed pack is aborted (loop over self._resumed_packs calling .abort())", message="_abort_write_group does not abort the resumed packs")
     dels = [n.id for n in g.nodes if n.kind == "stmt" and isinstance(n.ast, ast.Delete) and "self._resumed_packs" in norm(n.ast)] + g.find(assigns_to("self._resumed_packs"))
